@@ -62,7 +62,13 @@ def main(argv):
     common.enter_scratch()
     mod = importlib.import_module(f'harness.props.{pid.lower()}')
     if replay:
-        return mod.replay(replay)
+        # a failure may need the code under test to log at DEBUG (every fourth case of a check does): try both
+        common.LOG_MODE = 'off'
+        rc = mod.replay(replay)
+        if rc == 0:
+            common.LOG_MODE = 'debug'
+            rc = mod.replay(replay)
+        return rc
     lean = common.lean_side(pid, tier)
     try:
         if tier == 'thorough' and int(os.environ.get('VERIF_THOROUGH_ROUNDS', '8')) > 1:
